@@ -2,6 +2,7 @@
 //! generated).  It never decides a property: traces are validated by TLC against the
 //! TLA+ specification in /verif/spec.
 
+mod alloc;
 mod api;
 mod common;
 mod gen;
@@ -12,11 +13,15 @@ mod scen_aut;
 mod scen_build;
 mod scen_file;
 mod scen_lev;
+mod scen_mem;
 mod scen_merge;
 mod scen_sink;
 mod taut;
 
 use common::*;
+
+#[global_allocator]
+static GLOBAL: alloc::Counting = alloc::Counting;
 use serde_json::json;
 
 fn main() {
@@ -73,6 +78,16 @@ fn record(args: &Args) {
             let panics = s.panics;
             let (n, counts) = s.log.finish();
             println!("{}", json!({"scenario": scen, "events": n, "counts": counts, "panics": panics}));
+        }
+        "c13" | "c14" => {
+            let mut log = Log::create(&out);
+            if scen == "c13" {
+                scen_mem::c13(&mut log, seed, &tier)
+            } else {
+                scen_mem::c14(&mut log, seed, &tier)
+            }
+            let (n, counts) = log.finish();
+            println!("{}", json!({"scenario": scen, "events": n, "counts": counts, "panics": 0}));
         }
         "c19" => {
             let mut log = Log::create(&out);
